@@ -18,7 +18,7 @@ ASSUMPTIONS = ["the amount of an EOM drift correction is decided by C15; here it
                "Ramsey tolerance 1e-3 (emulator 1-ns discretisation observed <= 3e-5)"]
 TIERS = {"quick": dict(cases=1000, shards=8, case_timeout=180, shard_timeout=900),
          "thorough": dict(cases=16000, shards=16, case_timeout=180, shard_timeout=3000)}
-FLOORS = {"quick": {"refs_compared": 20000, "pulse_phases_checked": 2500, "explicit_shifts": 1500, "ramsey_checked": 40, "mappable_builds_checked": 80},
+FLOORS = {"quick": {"refs_compared": 20000, "pulse_phases_checked": 2500, "explicit_shifts": 1500, "ramsey_checked": 40, "mappable_builds_checked": 80, "ramsey_xy_masked_checked": 10},
           "thorough": {"refs_compared": 300000}}
 WEIGHTS = {"phase_shift": 6, "phase_shift_index": 2, "add": 10, "add_eom_pulse": 7, "target": 3, "declare_channel": 3,
            "sample": 0, "str": 0, "to_abstract_repr": 0, "build_copy": 0, "queries": 0, "measure": 0.02,
@@ -65,10 +65,49 @@ def ramsey(ctx, rng, k: int) -> None:
                       f"ramsey:{how}", case={"ramsey": dict(kind=kind, phi=phi, T=T, how=how)})
 
 
+def ramsey_xy_masked(ctx, rng, k: int) -> None:
+    """Ramsey on the XY basis while an SLM mask is on: the reference in force *before* the first pulse (phi0) and the
+    shift between the pulses (phi) both count; the unmasked atom ends with excitation cos^2(phi/2) whatever phi0."""
+    import pulser
+    from pulser_simulation import QutipEmulator
+
+    phi0 = [0.0, 2.0, -1.0, math.pi / 3, 4.5][k % 5]
+    phi = ANGLES[(k // 5) % len(ANGLES)]
+    T = [252, 100][(k // (5 * len(ANGLES))) % 2]
+    reg = pulser.Register({"a": (0.0, 0.0), "m": (4.0e4, 0.0)})  # far apart: the exchange term is negligible
+    seq = pulser.Sequence(reg, pulser.MockDevice)
+    seq.declare_channel("ch", "mw_global")
+    seq.config_slm_mask(["m"])
+    omega = (math.pi / 2) / (T * 1e-3)
+    half = pulser.Pulse.ConstantPulse(T, omega, 0.0, 0.0)
+    if phi0:
+        seq.phase_shift(phi0, "a", "m", basis="XY")
+    seq.add(half, "ch")
+    seq.phase_shift(phi, "a", "m", basis="XY")  # (a global pulse needs equal references on all its targets)
+    seq.add(half, "ch")
+    psi = np.asarray(QutipEmulator.from_sequence(seq).run().get_final_state().full()).ravel()
+    # basis (u, d) per atom, atom 'a' is the first tensor factor; it starts in u
+    p_a_u = abs(psi[0]) ** 2 + abs(psi[1]) ** 2
+    p_exc = 1.0 - p_a_u
+    want = math.cos(phi / 2) ** 2
+    ctx.count("ramsey_checked")
+    ctx.count("ramsey_xy_masked_checked")
+    ctx.mark_nontrivial(("ramsey-xy-masked", phi0, phi, T))
+    if abs(p_exc - want) > 1e-3:
+        ctx.violation("ramsey", f"XY, SLM mask on the other atom, T={T}, reference {phi0} before the first pulse, "
+                      f"phase_shift({phi}) between: excitation {p_exc:.6f}, cos^2(phi/2)={want:.6f}", "ramsey:xy-masked",
+                      case={"ramsey_xy_masked": dict(phi0=phi0, phi=phi, T=T)})
+
+
 def run_case(ctx, idx, rng, tier):
     stride = 8 if tier == "quick" else 4
     if idx % stride == 0:
-        ramsey(ctx, rng, idx // stride)
+        k = idx // stride
+        if k % 4 == 3:
+            ramsey_xy_masked(ctx, rng, k // 4)
+            ctx.case = {"ramsey_xy_masked_index": k // 4}
+            return
+        ramsey(ctx, rng, k)
         ctx.case = {"ramsey_index": idx // stride}
         return
     mapp = rng.random() < 0.2
